@@ -9,12 +9,16 @@ per-column dtype of the committed frame, the committed frame's cells and index, 
 The insert buffer and the dtypes are part of the key because buffering is the mechanism whose unobservability is
 being checked: two histories are one state only if the real object agrees on all of it.
 """
+import concurrent.futures as cf
 import json
 import os
+import random
+from concurrent.futures.process import BrokenProcessPool
 
 import numpy as np
 
 from klongpy import KlongInterpreter
+import klongpy.db.sys_fn_db      # noqa: F401 - pandas and duckdb are loaded once, before any worker is forked
 
 from .. import bfs, runner
 from ..ref.tablemodel import TableModel, selfcheck
@@ -454,7 +458,7 @@ def make_expand(b):
 
     def expand(hist):
         out = {'succ': [], 'transitions': 0, 'replayed_steps': 0, 'viol': set(), 'outcomes': set(), 'by_op': {},
-               'kind_differences_not_judged': 0, 'ops_with_nonempty_buffer': 0, 'witness_reads': 0,
+               'kind_differences_not_judged': 0, 'ops_with_nonempty_buffer': 0, 'witness_reads': 0, 'rebuilds': 0,
                'witness_reads_that_agreed': 0}
         if not hist:
             for n, r in tables:
@@ -466,8 +470,16 @@ def make_expand(b):
             return out
         m0 = model_of(hist)
         ht = texts(hist)
+        kl = pre = None
         for op in enabled(m0, b):
-            kl, m = build(hist)
+            # every operation starts from the state reached by hist: the table is rebuilt unless the previous
+            # operation provably left every field that states are merged on untouched
+            if kl is None:
+                kl, _ = build(hist)
+                pre = fingerprint(kl['t'])
+                out['rebuilds'] += 1
+                out['replayed_steps'] += len(hist)
+            m = m0.copy()
             t = kl['t']
             buffered = buffered_model_rows(t)
             cat = classify(op, m, buffered)
@@ -475,7 +487,8 @@ def make_expand(b):
             out['transitions'] += 1 + witnessed
             out['witness_reads'] += witnessed
             out['witness_reads_that_agreed'] += int(witnessed and viol is None)
-            out['replayed_steps'] += len(hist)
+            if viol is not None or witnessed or post != pre:
+                kl = None
             out['by_op'][cat] = out['by_op'].get(cat, 0) + 1
             out['outcomes'].add(op[0] + ('_' + op[1] if op[0] == 'sql' else '') + ' ' + observed)
             out['kind_differences_not_judged'] += int(drift)
@@ -488,6 +501,78 @@ def make_expand(b):
                 out['succ'].append((op, (m.key(), post)))
         return out
     return expand
+
+
+# --- fan-out ---------------------------------------------------------------------------------------------
+# bfs.search forks a fresh set of workers for every layer (runner.pmap) and expands small frontiers in the parent.
+# Neither fits DuckDB: a process that has opened a connection cannot safely fork workers that open their own
+# (observed: children hang in connect), and opening a connection costs 0.1-6 s under load, which 16 workers would pay
+# again in every layer. bfs.search is therefore run with a `pmap` of the same contract backed by one set of workers
+# that is forked once, before any connection exists, and lives for the whole search; the parent never expands.
+
+_WORK = {'fn': None}
+
+
+def _run_chunk(chunk):
+    return _WORK['fn'](chunk)
+
+
+class Workers:
+    def __init__(self, jobs):
+        self.jobs = max(1, jobs)
+        self.ex = None
+
+    def pmap(self, fn, items, cfg, chunk=None, deadline_s=3600, pin=True, inline_below=0):
+        items = list(items)
+        if not items:
+            return
+        if chunk is None:
+            chunk = max(1, min(200, len(items) // (self.jobs * 8) or 1))
+        chunks = [items[i:i + chunk] for i in range(0, len(items), chunk)]
+        random.Random(cfg.seed).shuffle(chunks)         # the seed permutes the order of work, never the work
+        if self.jobs == 1:
+            for c in chunks:
+                yield fn(c)
+            return
+        # `fn` is bfs.search's per-layer closure over `expand`; expand is the same object in every layer, so the
+        # workers forked during the first layer can serve the later ones through it
+        if self.ex is None:
+            import gc
+            import multiprocessing
+            _WORK['fn'] = fn
+            gc.collect()
+            gc.freeze()
+            self.ex = cf.ProcessPoolExecutor(max_workers=self.jobs, mp_context=multiprocessing.get_context('fork'))
+        futs = [self.ex.submit(_run_chunk, c) for c in chunks]
+        try:
+            for f in cf.as_completed(futs, timeout=deadline_s):
+                yield f.result()
+        except cf.TimeoutError:
+            self.kill()
+            raise runner.HarnessError('fan-out exceeded %ss' % deadline_s)
+        except BrokenProcessPool as e:
+            raise runner.HarnessError('a worker died: %r' % (e,))
+
+    def kill(self):
+        if self.ex is not None:
+            for p in list(getattr(self.ex, '_processes', {}).values()):
+                p.kill()
+
+    def close(self):
+        if self.ex is not None:
+            self.ex.shutdown(wait=True, cancel_futures=True)
+            self.ex = None
+
+
+def search(expand, cfg, max_depth, max_states):
+    w = Workers(cfg.jobs)
+    orig = runner.pmap
+    runner.pmap = w.pmap            # bfs.py looks pmap up in the runner module at call time
+    try:
+        return bfs.search(expand, cfg, max_depth, max_states=max_states)
+    finally:
+        runner.pmap = orig
+        w.close()
 
 
 # --- entry points --------------------------------------------------------------------------------------
@@ -504,7 +589,7 @@ def run(cfg):
     rep = runner.Report('C19', 'model_checking')
     selftest()
     b = bounds(cfg)
-    total = bfs.search(make_expand(b), cfg, b['depth'] + 1, max_states=cfg.pick(400000, 4000000))
+    total = search(make_expand(b), cfg, b['depth'] + 1, max_states=cfg.pick(400000, 4000000))
     viols = sorted((json.loads(s) for s in total.get('viol', ())), key=lambda v: (len(v['case']['ops']), v['key']))
     rep.extend_violations(viols)
     groups = {}
@@ -517,6 +602,7 @@ def run(cfg):
         'transitions': total['transitions'],
         'traces_validated_against_impl': total['transitions'],
         'replayed_steps': total.get('replayed_steps', 0),
+        'table_rebuilds': total.get('rebuilds', 0),
         'samples': [SETUP + texts(sample_ops), SETUP + texts(sample2)],
         'exhaustive': not total['capped'],
         'max_ops_after_create': total['max_depth'] - 1,
@@ -537,9 +623,11 @@ def run(cfg):
                 'with 0-2 rows, then up to max_ops_after_create operations from {insert one row, insert a batch of '
                 'two, t?col for every column, #t, .schema, $t, db(select * / count(*) / sum(col)), .index on every '
                 'listed column set whose values are unique in the table, .rindex, add column d}; every enabled '
-                'operation is executed on a freshly rebuilt real table in every state and its result compared with '
-                'the model; states merged on (model rows, columns, index columns) x (real idx_cols, columns, dtypes, '
-                'committed cells and index, insert buffer)',
+                'operation is executed in every state on the real table as hist left it (rebuilt from scratch unless '
+                'the previous operation left all merged fields untouched) and its result compared with the model; '
+                'states merged on (model rows, columns, index columns) x (real idx_cols, columns, dtypes, committed '
+                'cells and index, insert buffer); when an operation answers correctly but leaves fields that no '
+                'longer stand for the model rows, one extra db("select * from t") is issued and judged (witness read)',
     }
     rep.assumptions = [
         'numbers are compared by value, not by kind: an unindexed commit rebuilds the frame from one NumPy matrix, so '
@@ -597,5 +685,13 @@ def replay(cfg, path):
         elif exp[0] == 'print':
             want = print_expected(exp[1], exp[2], exp[3])
         print('%-45s [%s] -> %s    (model: %s)' % (src, pre, got_s, want))
+    if r['case'].get('witness'):
+        t = kl['t']
+        print('real fields stand for the model rows: %s' % conforms(t, m))
+        try:
+            got_s = show(tcanon(kl(WITNESS)))
+        except Exception as e:      # noqa: BLE001
+            got_s = 'EXC %s: %s' % (type(e).__name__, e)
+        print('%-45s [witness read] -> %s    (model: %s)' % (WITNESS, got_s, show(expected_canon(m.select_all()))))
     print('recorded: observed %s, expected %s' % (r.get('observed'), r.get('expected')))
     return 0
